@@ -1156,6 +1156,15 @@ class RootAlias(ArrayExpr):
         # would get this pin spliced into its middle on a cache hit.
         return self
 
+    def simplify_once(self, dependents, simplified):
+        # Likewise nothing left to simplify -- and something to lose: the tree
+        # below is lowered, so the layout pins (``ChunksFreeze``) consumers were
+        # built behind have vanished, and a pushdown applied now (dask's
+        # generic ``optimize`` simplifies whatever it is handed, which with
+        # ``array.optimize-graph`` off is this lowered, un-fused tree) could
+        # re-block an operand under per-block literals.
+        return self
+
     @functools.cached_property
     def _name(self):
         return self.operand("name")
